@@ -15,8 +15,12 @@ import time
 from harness import common
 from harness.common import Ctx, MachineryError, Outcome, Violation
 
-STEP_BOUND = 60000        # scheduler steps; the longest run of any quick/thorough family on the unchanged tree needs < 1/6 of it
-                          # (the maximum seen is reported in the evidence as max_steps_seen)
+# A run that does not fall idle is cut off (and then judged by L1 as a livelock, see _run_one) when it has taken STEP_BOUND scheduler
+# steps, or QUIET_STEPS consecutive steps without a single observable event.  On the unchanged tree the longest quick-tier run takes
+# ~26 000 steps and the longest stretch without an event is a few hundred steps; both maxima are reported in the evidence
+# (max_steps_seen, max_quiet_steps_seen).
+STEP_BOUND = 100000
+QUIET_STEPS = 4000
 
 ABS = os.path.join(common.SPECS, 'runtime', 'RuntimeAbs.tla')
 ABS_CFG = os.path.join(common.SPECS, 'runtime', 'RuntimeAbs.cfg')
@@ -200,14 +204,14 @@ def _run_one(sc):
     from harness import rtdrive
     try:
         bound = sc.get('max_steps', STEP_BOUND)
-        tr, dg = rtdrive.run_scenario(sc, max_steps=bound)
+        tr, dg = rtdrive.run_scenario(sc, max_steps=bound, quiet_steps=QUIET_STEPS)
         if dg['status'] == 'maxsteps':
-            # not a harness failure: repeat once with a four-fold bound; if the system still does not fall idle the trace
+            # not a harness failure: repeat once with four-fold bounds; if the system still does not fall idle the trace
             # ends in a snapshot marked "livelock" and L1 judges it (bounded-fairness reading of "for ever")
             first = dg['steps']
-            tr, dg = rtdrive.run_scenario(sc, max_steps=4 * bound)
-            dg['notes'] = list(dg['notes']) + ['step bound %d reached (%d steps); repeated with bound %d: %s after %d steps'
-                                               % (bound, first, 4 * bound, dg['status'], dg['steps'])]
+            tr, dg = rtdrive.run_scenario(sc, max_steps=4 * bound, quiet_steps=4 * QUIET_STEPS)
+            dg['notes'] = list(dg['notes']) + ['no progress (%d steps, bounds %d / %d quiet); repeated with four-fold bounds: %s after %d steps'
+                                               % (first, bound, QUIET_STEPS, dg['status'], dg['steps'])]
         return tr, dg, None
     except Exception as e:          # harness failure, reported as machinery error by the caller
         import traceback
@@ -311,11 +315,15 @@ def validate(prop, scs, ctx: Ctx, also=(), extra_cov=None, extra_traces=(), keep
                          'harness/rtprog.py event logging', 'harness/rtdrive.py projections'],
         'scenario_features': _feature_counts(scs),
         'max_steps_seen': max([dg['steps'] for _, dg in keep] or [0]), 'step_bound': STEP_BOUND,
+        'max_quiet_steps_seen': max([dg.get('max_quiet_steps', 0) for _, dg in keep] or [0]), 'quiet_bound': QUIET_STEPS,
         'runs_that_never_fell_idle': nstuck,
         'situations_reached': _situations([dg for _, dg in keep]),
     }
     if extra_cov:
         cov.update(extra_cov)
+    cov['real_process_undecided'] = _REAL['undecided']
+    out.notes += _REAL['notes']
+    _REAL['undecided'], _REAL['notes'] = 0, []
     out.coverage = cov
     if keep_items:
         out.items = [(tr, dg, sc) for tr, (sc, dg) in zip(traces, keep)]
@@ -352,10 +360,42 @@ def replay_outcome(prop, ctx, also=()):
     return validate(prop, [sc], ctx, also=also)
 
 
-def run_real_scenarios(scs, ctx, parallel=4):
-    """Real OS processes and sockets (harness/rtreal.py); returns [(trace, diag, scenario)]."""
-    from concurrent.futures import ThreadPoolExecutor
+_REAL = {'undecided': 0, 'notes': []}      # bookkeeping of run_real_scenarios, merged into the Outcome by validate()
+
+
+def _real_once(sc, ctx, timeout):
+    """One real-process run; returns (trace, diag, event times).  harness/rtprog.py stamps every event it writes with the
+    wall clock in <trace dir>/times.txt (the trace itself carries no times)."""
     from harness import rtreal
+    before = set(os.listdir(ctx.scratch))
+    tr, dg = rtreal.run_real(sc, ctx.scratch, call_timeout=timeout)
+    times = []
+    for d in sorted(os.listdir(ctx.scratch)):
+        if d.startswith('rtreal') and d not in before:
+            try:
+                with open(os.path.join(ctx.scratch, d, 'times.txt')) as f:
+                    times = [float(x) for x in f.read().split()]
+            except (OSError, ValueError):
+                pass
+    return tr, dg, times
+
+
+def _pending(tr, dg):
+    """Does the wall-clock part of the verdict say 'still waiting' (a client call pending, or - after a crash - a runtime
+    process still alive)?"""
+    last = tr['ev'][-1] if tr['ev'] else {}
+    return bool(dg['blocked_threads']) or bool(last.get('e') == 'Quiescent' and (last.get('blocked') or last.get('alive')))
+
+
+def run_real_scenarios(scs, ctx, parallel=4):
+    """Real OS processes and sockets (harness/rtreal.py); returns [(trace, diag, scenario)].
+
+    OS-scheduled runs end by WALL CLOCK, so "a call is still pending" may only mean a slow machine.  The rule that keeps the
+    verdict sound: a run with something still pending is repeated once with a six-fold limit; if something is pending again,
+    the run counts as a hang only on evidence of silence - the machine is not overloaded (1-minute load average <= cores),
+    the run did produce events, and no event arrived during the last fifth of the time limit.  Otherwise it is UNDECIDED:
+    its trace is dropped, a NOTE is printed and it is counted in coverage['real_process_undecided'].  Hangs are decided by
+    the deterministic kernel runs, which do not depend on time; real runs contribute validated OS-scheduled traces."""
     common.use_repo()
     out = []
     # the interpreter's tables are module globals: real runs are executed one after another in this process,
@@ -364,12 +404,24 @@ def run_real_scenarios(scs, ctx, parallel=4):
         sc = dict(sc)
         sc['real'] = True
         try:
-            tr, dg = rtreal.run_real(sc, ctx.scratch)
-            if dg['blocked_threads']:
-                # OS-scheduled runs are judged by wall clock: a call still pending may just be a loaded machine.
-                # A genuine hang persists, so the run is repeated once with a six-fold time limit and only that verdict counts.
-                tr, dg = rtreal.run_real(sc, ctx.scratch, call_timeout=240.0)
-                dg['notes'] = list(dg.get('notes', [])) + ['first attempt had a call pending after 40 s; repeated with 240 s']
+            tr, dg, times = _real_once(sc, ctx, 40.0)
+            if _pending(tr, dg):
+                limit = 240.0
+                tr, dg, times = _real_once(sc, ctx, limit)
+                dg['notes'] = list(dg.get('notes', [])) + ['first attempt had something pending after 40 s; repeated with 240 s']
+                if _pending(tr, dg):
+                    load = os.getloadavg()[0]
+                    cores = os.cpu_count() or 1
+                    nev = sum(1 for e in tr['ev'] if e['e'] != 'Quiescent')
+                    # times[-1] is the harness' own final snapshot; the one before is the last thing the system did
+                    quiet = (times[-1] - times[-2]) if len(times) >= 2 else 0.0
+                    if nev == 0 or load > cores or quiet < 0.2 * limit:
+                        _REAL['undecided'] += 1
+                        _REAL['notes'].append('NOTE property=%s real-process run undecided (machine overloaded: load=%.1f on %d cores, events=%d, '
+                                              'last event %.0f s before the %d s limit ran out); dropped, not judged'
+                                              % (ctx.prop, load, cores, nev, quiet, int(limit)))
+                        continue
+                    dg['notes'].append('still pending after %d s on a quiet machine (load %.1f, last event %.0f s before the end): judged' % (int(limit), load, quiet))
             out.append((tr, dg, sc))
         except Exception as e:
             raise MachineryError('real-process run failed: %r' % (e,))
